@@ -223,6 +223,34 @@ impl Check for NormCheck {
                 }
             }
         }
+        // ---- path 5: formatting after an edit — a note is replaced (didChange-style) by the text of another
+        // note; what the server then formats must say exactly what the new text says (nothing of the old
+        // version may survive: front matter, titles, blocks)
+        if self.prop == "C01" && pinned.is_none() && lib.texts.len() >= 2 {
+            let keys: Vec<&String> = lib.texts.keys().collect();
+            let k = keys[(case as usize) % keys.len()].clone();
+            // the replacement text comes from a note of the same directory, so its relative links mean the same
+            let k2 = keys.iter().cycle().skip((case as usize + 1) % keys.len()).take(keys.len()).find(|c| ***c != k && mdscan::key_dir(c) == mdscan::key_dir(&k)).map(|c| (*c).clone()).unwrap_or_else(|| k.clone());
+            let new_text = lib.texts[&k2].clone();
+            let r = mon::catch(|| {
+                let mut db = Database::new(to_state(&lib.texts), false, MarkdownOptions::default());
+                db.update_document(k.as_str().into(), new_text.clone());
+                db.graph().to_markdown(&k.as_str().into())
+            });
+            match r {
+                Ok(got) => {
+                    let mut texts2 = lib.texts.clone();
+                    texts2.insert(k.clone(), new_text.clone());
+                    let view2 = LibView::new(&texts2);
+                    let cmp = oracle::compare_norm(&view2.scans[&k], &mdscan::scan(&got), &mdscan::key_dir(&k), &view2);
+                    rep.count("edit_then_format", 1);
+                    for df in cmp.c01.iter().take(2) {
+                        rep.violate(df.clause, "after-edit", format!("note {} replaced by the text of {}: {}", k, k2, df.detail), json!({"case": case, "key": k, "old": lib.texts[&k], "new": new_text, "formatted": got}));
+                    }
+                }
+                Err(p) => rep.violate("panic", &format!("{}@after-edit", p.signature()), p.message.clone(), replay("")),
+            }
+        }
         // ---- path 4 (sample): the LSP formatting request on the real server threads must return the same
         // text as the library export, and be a fixpoint after didChange(own output)
         if case % 8 == 0 && pinned.is_none() && (self.prop == "C01" || self.prop == "C02") {
